@@ -7,10 +7,12 @@ ProcessLookupError - POSIX behaviour).  The fake sleep(1) is the tick driver.
 
 History (JSON): list of ticks; tick = {"die": [slots], "sig": ["HUP"|"INT"|"TERM"|"FC", ...],
                                       "mid": [[k, sig], ...]}   # deliver sig at the k-th fake call of the tick
-plus "startup_deaths": indexes (in order of Process.start() calls) of processes that exit during start-up.
+plus "startup_deaths": indexes (in order of Process.start() calls) of processes that exit during start-up, and
+"slow": [[start index, seconds]] - processes that need that long to exit after terminate() (a worker finishing
+in-flight tasks): they stay alive ("terminating") until joined without timeout or until the time has passed.
 
 Trace events: ["tick", n] ["start", slot, pid] ["die", slot, pid] ["terminate", slot, pid, state]
-              ["join", slot, pid, state_before] ["kill", pid, sig, state] ["sig", name] ["return", value]
+              ["join", slot, pid, state_before, state_after, timeout] ["exit", slot, pid] ["kill", pid, sig, state] ["sig", name] ["return", value]
 """
 from __future__ import annotations
 
@@ -68,7 +70,9 @@ class FP:
         self.name = name
         self.slot = int(name.split("-")[1])
         self.pid: Any = None
-        self.state = "new"
+        self.state = "new"            # new -> alive -> (terminating ->) zombie -> reaped
+        self.shutdown_s = 0.0         # seconds the process needs to exit after terminate()
+        self.remaining = 0.0
 
     def start(self) -> None:
         self.w.point("start")
@@ -78,6 +82,7 @@ class FP:
         self.w.trace.append(["start", self.slot, self.pid])
         k = self.w.nstart
         self.w.nstart += 1
+        self.shutdown_s = float(self.w.slow.get(k, 0.0))
         if k in self.w.startup_deaths:
             self.state = "zombie"
             self.w.trace.append(["die", self.slot, self.pid])
@@ -86,19 +91,30 @@ class FP:
         self.w.point("is_alive")
         if self.state == "zombie":
             self.state = "reaped"
-        return self.state == "alive"
+        return self.state in ("alive", "terminating")
 
     def terminate(self) -> None:
         self.w.point("terminate")
-        self.w.trace.append(["terminate", self.slot, self.pid, self.state])
+        before = self.state
         if self.state == "alive":
-            self.state = "zombie"
+            if self.shutdown_s > 0:
+                self.state = "terminating"      # SIGTERM received, still finishing its work
+                self.remaining = self.shutdown_s
+            else:
+                self.state = "zombie"
+        self.w.trace.append(["terminate", self.slot, self.pid, before, self.state])
 
     def join(self, timeout: Any = None) -> None:
         self.w.point("join")
-        self.w.trace.append(["join", self.slot, self.pid, self.state])
-        if self.state == "zombie":
+        before = self.state
+        if self.state == "terminating":
+            if timeout is None or float(timeout) >= self.remaining:
+                self.state = "reaped"           # waited until it exited
+            else:
+                self.remaining -= float(timeout)
+        elif self.state == "zombie":
             self.state = "reaped"
+        self.w.trace.append(["join", self.slot, self.pid, before, self.state, timeout])
 
 
 class World:
@@ -110,6 +126,7 @@ class World:
         self.handlers: Dict[int, Any] = {}
         self.pid = 100
         self.startup_deaths = set(startup_deaths)
+        self.slow: Dict[int, float] = {}
         self.nstart = 0
         self.calls = 0
         self.mid: Dict[int, List[str]] = {}
@@ -139,6 +156,12 @@ class World:
         ev = self.h[self.tick]
         self.tick += 1
         self.trace.append(["tick", self.tick])
+        for p in self.procs:
+            if p.state == "terminating":
+                p.remaining -= 1.0
+                if p.remaining <= 0:
+                    p.state = "zombie"
+                    self.trace.append(["exit", p.slot, p.pid])
         for i in ev.get("die", ()):
             for p in self.procs:
                 if p.slot == i and p.state == "alive":
@@ -157,10 +180,13 @@ class World:
         self.trace.append(["kill", pid, int(sig), p.state if p else None])
         if p is None or p.state == "reaped":
             raise ProcessLookupError(pid)
+        if p.state in ("alive", "terminating"):
+            pass
 
 
-def run_manager(W: int, max_fails: int, history: List[Dict[str, Any]], startup_deaths=()) -> Dict[str, Any]:
+def run_manager(W: int, max_fails: int, history: List[Dict[str, Any]], startup_deaths=(), slow=()) -> Dict[str, Any]:
     w = World(history, list(startup_deaths))
+    w.slow = {int(k): float(v) for k, v in slow}
 
     def mk_process(target: Any = None, kwargs: Any = None, name: Any = None, daemon: Any = None, **kw: Any) -> FP:
         p = FP(w, name)
